@@ -59,3 +59,11 @@ chk("C11", "round-trip testing of generated expression programs (eval(str(e))) a
     TRUST + " Known findings K2 (math.floor/ceil/trunc print as bare names) and K3 (_eq/_neq print as ==/!=) are excluded by "
     "construction and replayed as exemplars; nested rebinding puts the copied tasks into C01's K1 class, so values are compared "
     "only for the other modes.", "DESIGN.md 4/C11")
+
+chk("C13", "translation validation by differential execution: generated function vs assignment through a twin manager vs pull model, plus a structural check of the generated source",
+    "For generated acyclic managers and drawn subsets (<=4) of leaf references: gen_fun(...)(*values) in world A, the same assignments "
+    "through the manager in twin world B and the pull model must leave identical containers (ZeroDivisionError proviso counted); the "
+    "mk_fun source must consist of the argument assignments followed by 'target = expr' lines whose target set T satisfies L <= T <= U, "
+    "each once, ordered consistently with every true data-flow edge. Each case validates one generated program.",
+    TRUST + " K1-class managers, math.floor/ceil/trunc and definitions with captured non-finite literals are excluded and counted.",
+    "DESIGN.md 4/C13")
